@@ -703,7 +703,19 @@ package gohlslib
 //@   ensures calls("Muxer.rotateSegments") == 1 ==> calls("Muxer.rotateParts") == 0
 //@   ensures calls("Muxer.rotateParts") == 1 ==> (s.variant == MuxerVariantLowLatency && callarg("Muxer.rotateParts", 0, 1) == timestampToDuration(sample.dts, track.ClockRate))
 //@   ensures (result == nil && calls("muxerPart.writeSample") == 1 && track.isLeading && randomAccess && paramsChanged) ==> calls("Muxer.rotateSegments") == 1
-//@   ensures (calls("Muxer.rotateSegments") == 1 && !paramsChanged) ==> atwrite_elapsed_seg(s, track, sample)
+//@   ensures calls("Muxer.rotateSegments") == 1 ==> (randomAccess && (paramsChanged || segElapsed(s, track, sample, old(track.fmp4NextSample), old(track.stream.nextSegment)) >= s.segmentMinDuration))
+//@   ensures (result == nil && track.isLeading && calls("muxerPart.writeSample") == 1 && randomAccess
+//@        && (paramsChanged || segElapsed(s, track, sample, old(track.fmp4NextSample), old(track.stream.nextSegment)) >= s.segmentMinDuration)) ==> calls("Muxer.rotateSegments") == 1
+//@   ensures calls("Muxer.rotateParts") == 1 ==> (!(randomAccess && (paramsChanged || segElapsed(s, track, sample, old(track.fmp4NextSample), old(track.stream.nextSegment)) >= s.segmentMinDuration))
+//@        && partElapsed(s, track, sample, old(track.fmp4NextSample), old(track.stream.nextSegment), old(track.stream.nextPart)) >= s.fmp4AdjustedPartDuration)
+//@   ensures (result == nil && track.isLeading && calls("muxerPart.writeSample") == 1 && s.variant == MuxerVariantLowLatency
+//@        && !(randomAccess && (paramsChanged || segElapsed(s, track, sample, old(track.fmp4NextSample), old(track.stream.nextSegment)) >= s.segmentMinDuration))
+//@        && partElapsed(s, track, sample, old(track.fmp4NextSample), old(track.stream.nextSegment), old(track.stream.nextPart)) >= s.fmp4AdjustedPartDuration) ==> calls("Muxer.rotateParts") == 1
 //@ end
 
-//@ pred atwrite_elapsed_seg(s *muxerSegmenter, track *muxerTrack, sample *fmp4AugmentedSample) := true
+// media time between the start of the open segment / part and the DTS of the sample now held
+// (the start is the held sample's own DTS when this call created the first segment)
+//@ pred segElapsed(s *muxerSegmenter, track *muxerTrack, sample *fmp4AugmentedSample, held *fmp4AugmentedSample, openAtEntry muxerSegment) time.Duration :=
+//@   timestampToDuration(sample.dts, track.ClockRate) - ite(openAtEntry == nil, timestampToDuration(held.dts, track.ClockRate), old(asF(openAtEntry).startDTS))
+//@ pred partElapsed(s *muxerSegmenter, track *muxerTrack, sample *fmp4AugmentedSample, held *fmp4AugmentedSample, openAtEntry muxerSegment, partAtEntry *muxerPart) time.Duration :=
+//@   timestampToDuration(sample.dts, track.ClockRate) - ite(openAtEntry == nil, timestampToDuration(held.dts, track.ClockRate), old(partAtEntry.startDTS))
